@@ -126,7 +126,15 @@ def assemble(unit, repo=None, mutate=None):
     ranges = {}    # key -> (first_line, last_line) 1-based in assembled text
     vac_ranges = {}
     used = set()
+    tl = []
     for line in tmpl.split('\n'):
+        mi = re.match(r'\s*//@@include\s+(\S+)\s*$', line)
+        if mi:
+            with open(os.path.join(VERIF, 'units', mi.group(1)), encoding='utf-8') as f:
+                tl.extend(f.read().split('\n'))
+        else:
+            tl.append(line)
+    for line in tl:
         m = re.match(r'\s*//@@\s*(\S+)\s*$', line)
         if not m:
             out_lines.append(line); continue
